@@ -299,19 +299,60 @@ pub fn pred_battery(n0: u64, n1: u64, s: &McState) -> String {
 }
 
 thread_local! {
+    /// reduced observations (no access to the process state): used when processes are Python twins (C18)
+    pub static REDUCED: std::cell::Cell<bool> = std::cell::Cell::new(false);
+}
+
+thread_local! {
     /// nodes of processes 0 and 1 of the scenario being run (for the predicate battery)
     pub static BATTERY_NODES: std::cell::Cell<(u64, u64)> = std::cell::Cell::new((0, 0));
 }
 
 /// one line describing a state: digest form, or the full canonical text in verbose mode
 pub fn state_line(ps: &PredSpec, s: &McState, verbose: bool) -> String {
+    if REDUCED.with(|c| c.get()) {
+        // what does not depend on the representation of the process state
+        let obs: Vec<String> = s
+            .node_states
+            .values()
+            .flat_map(|ns| ns.proc_states.iter())
+            .map(|(pn, pe)| {
+                format!(
+                    "{}:{}:{}:{}:[{}]",
+                    num(pn),
+                    pe.sent_message_count,
+                    pe.received_message_count,
+                    pe.event_log.len(),
+                    pe.local_outbox.iter().map(c_msg).collect::<Vec<_>>().join(";")
+                )
+            })
+            .collect();
+        let (n0, n1) = BATTERY_NODES.with(|c| c.get());
+        return format!(
+            "d={} ne={} st={} tr={} ob={} v={} pb={}",
+            s.depth,
+            s.events.verif_events().len(),
+            fnv(&c_store_red(&s.events)),
+            fnv(&c_trace(&s.trace)),
+            fnv(&obs.join("|")),
+            verdict_text(ps, s),
+            pred_battery(n0, n1, s)
+        );
+    }
     if verbose {
         c_state(s)
     } else {
         let (x, k) = crash_info(s);
         format!(
-            "d={} core={} red={} eqp={} pv={} tr={} c={} v={} x={} k={} pb={}",
+            "d={} cr=[{}] ne={} core={} red={} eqp={} pv={} tr={} c={} v={} x={} k={} pb={}",
             s.depth,
+            s.node_states
+                .iter()
+                .filter(|(_, ns)| ns.verif_is_crashed())
+                .map(|(n, _)| num(n).to_string())
+                .collect::<Vec<_>>()
+                .join(","),
+            s.events.verif_events().len(),
             fnv(&c_state_core(s)),
             fnv(&c_state_red(s)),
             fnv(&c_state_eqp(s)),
